@@ -745,21 +745,297 @@ Proof.
       * intros k y Hk. rewrite find_upd_w, Cid. destruct (N.eqb_spec (w_id w) k) as [E|E].
         -- subst k. rewrite Ef. intros Hy. inversion Hy; subst. split; assumption.
         -- apply B. exact Hk.
-    + repeat split; [right|exact Hns]. cbn [set_pool f_pool f_size].
-      apply shape_remove_ge; [|exact Hge]. destruct Hs as [A B]. split.
-      * intros k Hk. rewrite find_upd_w, Cid. destruct (N.eqb_spec (w_id w) k); [lia|]. apply A. exact Hk.
-      * intros k y Hk. rewrite find_upd_w, Cid. destruct (N.eqb_spec (w_id w) k) as [E|E].
-        -- subst k. rewrite Ef. intros Hy. inversion Hy; subst.
-           (* this entry is removed right after; any value works for the bound k = i *)
-           destruct (B (w_id w) w Hk Ef) as [B1 B2]. split; [congruence|].
-           (* unreachable for the final pool, but shape_remove_ge only needs shape of the rest *)
-           exact B2.
-        -- apply B. exact Hk.
+    + repeat split; [right|exact Hns]. cbn [set_pool f_pool f_size]. destruct Hs as [A B]. split.
+      * intros k Hk. rewrite find_remove_w. destruct (N.eqb_spec (w_id w) k); [lia|].
+        rewrite find_upd_w, Cid. destruct (N.eqb_spec (w_id w) k); [contradiction|]. apply A. exact Hk.
+      * intros k y Hk. rewrite find_remove_w. destruct (N.eqb_spec (w_id w) k); [discriminate|].
+        rewrite find_upd_w, Cid. destruct (N.eqb_spec (w_id w) k); [contradiction|]. apply B. exact Hk.
   - unfold try_route_next.
     match goal with |- context [try_route c ?f ?st (Some i)] => destruct (try_route c f st (Some i)) as [s2 e'] eqn:Et end.
     intros H; inversion H; subst. apply try_route_frame in Et.
-    pose proof (frame_trans _ _ _ Et (mark_available_frame c s2 i)) as (F1 & F2 & F3 & F4).
+    pose proof (frame_trans _ _ _ Et (mark_available_frame c s2 (w_id w))) as (F1 & F2 & F3 & F4).
     cbn [set_pool f_size f_stopped f_pool f_drain] in *.
     repeat split; [|exact F1|congruence]. right. rewrite F1. eapply shape_ple; [|exact F4].
-    eapply shape_upd_nondraining; [exact Hs|exact Ef|congruence|congruence|congruence].
+    eapply shape_upd_nondraining; [exact Hs|exact Ef|exact Cid|congruence|congruence].
+Qed.
+
+Lemma shape_upd_busy_draining p n i w x :
+  shape_ok p n -> find_w p i = Some w -> w_id x = i -> w_drain w = true ->
+  w_drain x = true -> w_working x = true -> shape_ok (upd_w p x) n.
+Proof.
+  intros Hs Hf Hid Hd Hdx Hwx. pose proof (shape_draining_ge _ _ _ _ Hs Hf Hd) as Hge.
+  destruct Hs as [A B]. split.
+  - intros k Hk. rewrite find_upd_w, Hid. destruct (N.eqb_spec i k); [lia|]. apply A. exact Hk.
+  - intros k y Hk. rewrite find_upd_w, Hid. destruct (N.eqb_spec i k) as [E|E].
+    + subst k. rewrite Hf. intros Hy; inversion Hy; subst. split; assumption.
+    + apply B. exact Hk.
+Qed.
+
+Lemma worker_died_RI c s i s' e : worker_died c s i = (s', e) -> f_stopped s = false -> RI s ->
+  RI s' /\ f_size s' = f_size s /\ f_stopped s' = false.
+Proof.
+  intros H Hns [Hs|Hs]; [congruence|]. revert H. unfold worker_died.
+  destruct (find_w (f_pool s) i) as [w|] eqn:Ef.
+  2:{ intros H; inversion H; subst. repeat split; [right; exact Hs|exact Hns]. }
+  pose proof (find_w_id _ _ _ Ef) as Hid.
+  destruct (w_drain w) eqn:Edr; cbn [andb].
+  - destruct (w_q w) as [|qj qr] eqn:Eq.
+    + intros H; inversion H; subst. cbn [set_pool set_rs f_size f_stopped f_pool].
+      repeat split; [right|exact Hns]. apply shape_remove_ge; [exact Hs|].
+      eapply shape_draining_ge; eassumption.
+    + unfold build. cbn [set_builds f_pool w_q dispatch_job set_q].
+      unfold try_route_next.
+      match goal with |- context [try_route c ?f ?st (Some i)] => destruct (try_route c f st (Some i)) as [s2 e'] eqn:Et end.
+      intros H; inversion H; subst. apply try_route_frame in Et.
+      pose proof (frame_trans _ _ _ Et (mark_available_frame c s2 (w_id w))) as (F1 & F2 & F3 & F4).
+      cbn [set_pool set_builds f_size f_stopped f_pool f_drain] in *.
+      repeat split; [|exact F1|congruence]. right. rewrite F1. eapply shape_ple; [|exact F4].
+      eapply shape_upd_busy_draining; [exact Hs|exact Ef|reflexivity|exact Edr|reflexivity|reflexivity].
+  - unfold build. cbn [set_builds f_pool w_q].
+    set (w0 := mkW (w_id w) None (w_q w) false (assoc i (f_builds s) + 1)).
+    assert (Hw1 : forall w1 e1, (match w_q w with j :: r => dispatch_job (set_q w0 r) j | [] => (w0, []) end) = (w1, e1) ->
+                  w_id w1 = w_id w /\ w_drain w1 = false).
+    { intros w1 e1. destruct (w_q w); cbn [dispatch_job set_q]; intros E; inversion E; subst; split; reflexivity. }
+    destruct (match w_q w with j :: r => dispatch_job (set_q w0 r) j | [] => (w0, []) end) as [w1 e1] eqn:E1.
+    destruct (Hw1 w1 e1 eq_refl) as [I1 D1]. unfold try_route_next.
+    match goal with |- context [try_route c ?f ?st (Some i)] => destruct (try_route c f st (Some i)) as [s2 e'] eqn:Et end.
+    intros H; inversion H; subst. apply try_route_frame in Et.
+    pose proof (frame_trans _ _ _ Et (mark_available_frame c s2 (w_id w))) as (F1 & F2 & F3 & F4).
+    cbn [set_pool set_builds f_size f_stopped f_pool f_drain] in *.
+    repeat split; [|exact F1|congruence]. right. rewrite F1. eapply shape_ple; [|exact F4].
+    eapply shape_upd_nondraining; [exact Hs|exact Ef|exact I1|congruence|exact Edr].
+Qed.
+
+(* grow: slot by slot the non-draining prefix gets longer *)
+Lemma grow_shape c k : forall s from,
+  shape_ok (f_pool s) from ->
+  shape_ok (f_pool (grow c s from k)) (from + N.of_nat k)
+  /\ f_size (grow c s from k) = f_size s /\ f_stopped (grow c s from k) = f_stopped s.
+Proof.
+  induction k as [|k IH]; intros s from Hs; cbn [grow].
+  { rewrite N.add_0_r. split; [exact Hs|split; reflexivity]. }
+  replace (from + N.of_nat (S k)) with ((from + 1) + N.of_nat k) by lia.
+  destruct (find_w (f_pool s) from) as [w|] eqn:Ef.
+  - match goal with |- context [grow c ?st (from + 1) k] => destruct (IH st (from + 1)) as (A1 & A2 & A3) end.
+    + unfold mark_available. cbn [set_pool f_pool].
+      assert (Hsh : shape_ok (upd_w (f_pool s) (set_drain w false)) (from + 1)).
+      { destruct Hs as [A B]. pose proof (find_w_id _ _ _ Ef) as Hid. split.
+        - intros i Hi. rewrite find_upd_w. cbn [set_drain w_id]. rewrite Hid.
+          destruct (N.eqb_spec from i) as [E|E].
+          + subst i. rewrite Ef. eexists. split; [reflexivity|reflexivity].
+          + apply A. lia.
+        - intros i y Hi. rewrite find_upd_w. cbn [set_drain w_id]. rewrite Hid.
+          destruct (N.eqb_spec from i) as [E|E]; [lia|]. apply B. lia. }
+      destruct (avail_in _ from); exact Hsh.
+    + unfold mark_available in *. cbn [set_pool f_pool f_size f_stopped] in *.
+      split; [exact A1|]. split.
+      * rewrite A2. destruct (avail_in _ from); reflexivity.
+      * rewrite A3. destruct (avail_in _ from); reflexivity.
+  - unfold build. cbn [set_builds f_pool].
+    match goal with |- context [grow c ?st (from + 1) k] => destruct (IH st (from + 1)) as (A1 & A2 & A3) end.
+    + cbn [set_rs set_pool set_builds f_pool]. destruct Hs as [A B]. split.
+      * intros i Hi. rewrite find_app_new. cbn [w_id].
+        destruct (N.eqb_spec from i) as [E|E].
+        -- subst i. rewrite Ef. eexists. split; reflexivity.
+        -- destruct (A i ltac:(lia)) as (w & Hw & Hd). rewrite Hw. eauto.
+      * intros i y Hi. rewrite find_app_new. cbn [w_id]. destruct (find_w (f_pool s) i) as [w|] eqn:Ei.
+        -- intros Hy; inversion Hy; subst. apply (B i y ltac:(lia) Ei).
+        -- destruct (N.eqb_spec from i); [lia|discriminate].
+    + split; [exact A1|split; [rewrite A2; reflexivity|rewrite A3; reflexivity]].
+Qed.
+
+(* shrink: slots n..from-1 are retired or draining-and-busy, slots from..cur-1 still untouched *)
+Definition shape3 (p : list worker) (n from cur : N) : Prop :=
+  (forall i, (i < n \/ (from <= i /\ i < cur)) -> exists w, find_w p i = Some w /\ w_drain w = false)
+  /\ (forall i w, ((n <= i /\ i < from) \/ cur <= i) -> find_w p i = Some w -> w_drain w = true /\ w_working w = true).
+
+Lemma shrink_shape c n cur k : forall s from,
+  from + N.of_nat k = cur -> n <= from ->
+  shape3 (f_pool s) n from cur ->
+  shape3 (f_pool (shrink c s from k)) n cur cur
+  /\ f_size (shrink c s from k) = f_size s /\ f_stopped (shrink c s from k) = f_stopped s.
+Proof.
+  induction k as [|k IH]; intros s from Hk Hn Hs; cbn [shrink].
+  { assert (E : from = cur) by lia. rewrite E in Hs. split; [exact Hs|split; reflexivity]. }
+  destruct Hs as [A B]. destruct (A from ltac:(lia)) as (w & Ef & Hd). rewrite Ef.
+  pose proof (find_w_id _ _ _ Ef) as Hid.
+  destruct (w_working w) eqn:Ew.
+  - match goal with |- context [shrink c ?st (from + 1) k] => destruct (IH st (from + 1)) as (A1 & A2 & A3); [lia|lia| |] end.
+    + cbn [set_pool f_pool]. split.
+      * intros i Hi. rewrite find_upd_w. cbn [set_drain w_id]. rewrite Hid.
+        destruct (N.eqb_spec from i); [lia|]. apply A. lia.
+      * intros i y Hi. rewrite find_upd_w. cbn [set_drain w_id]. rewrite Hid.
+        destruct (N.eqb_spec from i) as [E|E].
+        -- subst i. rewrite Ef. intros Hy; inversion Hy; subst. cbn [set_drain w_drain]. split; [reflexivity|].
+           unfold w_working, w_available in *. cbn [set_drain w_cur w_q]. exact Ew.
+        -- apply B. lia.
+    + split; [exact A1|split; [rewrite A2; reflexivity|rewrite A3; reflexivity]].
+  - match goal with |- context [shrink c ?st (from + 1) k] => destruct (IH st (from + 1)) as (A1 & A2 & A3); [lia|lia| |] end.
+    + cbn [set_pool set_rs f_pool]. split.
+      * intros i Hi. rewrite find_remove_w. destruct (N.eqb_spec from i); [lia|]. apply A. lia.
+      * intros i y Hi. rewrite find_remove_w. destruct (N.eqb_spec from i); [discriminate|]. apply B. lia.
+    + split; [exact A1|split; [rewrite A2; reflexivity|rewrite A3; reflexivity]].
+Qed.
+
+Lemma resize_RI c s n s' e : resize c s n = (s', e) -> f_stopped s = false -> RI s ->
+  RI s' /\ f_stopped s' = false /\ f_size s' = (if n =? 0 then f_size s else N.min pool_max n).
+Proof.
+  intros H Hns [Hs|Hs]; [congruence|]. revert H. unfold resize. destruct (n =? 0).
+  { intros H; inversion H; subst. repeat split; [right; exact Hs|exact Hns]. }
+  set (m := N.min pool_max n). destruct (N.ltb_spec (f_size s) m) as [Hlt|Hge].
+  - intros H. destruct (grow_shape c (N.to_nat (m - f_size s)) s (f_size s) Hs) as (G1 & G2 & G3).
+    replace (f_size s + N.of_nat (N.to_nat (m - f_size s))) with m in G1 by lia.
+    apply route_queued_frame in H. destruct H as (F1 & F2 & F3 & F4). cbn [set_size f_size f_stopped f_pool] in *.
+    repeat split; [right|congruence|exact F1]. rewrite F1. eapply shape_ple; eassumption.
+  - destruct (N.ltb_spec m (f_size s)) as [Hlt|Hge2]; intros H; inversion H; subst.
+    + destruct (shrink_shape c m (f_size s) (N.to_nat (f_size s - m)) s m ltac:(lia) ltac:(lia)) as (G1 & G2 & G3).
+      { destruct Hs as [A B]. split.
+        - intros i Hi. apply A. lia.
+        - intros i y Hi. apply B. lia. }
+      cbn [set_size f_size f_stopped f_pool]. repeat split; [right|congruence].
+      cbn [set_size f_size f_pool]. destruct G1 as [A B]. split.
+      * intros i Hi. apply A. lia.
+      * intros i y Hi. apply B. lia.
+    + repeat split; [right; exact Hs|exact Hns|lia].
+Qed.
+
+Lemma after_message_RI s s' e : after_message s = (s', e) -> RI s ->
+  RI s' /\ f_size s' = f_size s /\ (f_stopped s' = false -> f_stopped s = false).
+Proof.
+  unfold after_message. destruct (f_drain s).
+  - intros H; inversion H; subst. repeat split; [assumption|exact (fun x => x)].
+  - destruct (all_available (f_pool s) && (len (f_q s) =? 0)); intros H; inversion H; subst.
+    + intros _. repeat split; [left; reflexivity|]. cbn. discriminate.
+    + repeat split; [assumption|exact (fun x => x)].
+  - intros H; inversion H; subst. intros _. repeat split; [left; reflexivity|]. cbn. discriminate.
+Qed.
+
+(* one label: invariant kept; if the factory is still alive afterwards it was alive before and
+   the pool size is the requested one *)
+Definition size_after (o : fop) (n : N) : N :=
+  match o with FResize k => if k =? 0 then n else N.min pool_max k | _ => n end.
+
+Lemma with_after_RI r s' e : with_after r = (s', e) -> RI (fst r) ->
+  RI s' /\ f_size s' = f_size (fst r) /\ (f_stopped s' = false -> f_stopped (fst r) = false).
+Proof.
+  destruct r as [s0 e0]. unfold with_after. destruct (after_message s0) as [s1 e1] eqn:E.
+  intros H; inversion H; subst. cbn [fst]. eapply after_message_RI; eassumption.
+Qed.
+
+Lemma finish_w_RI c s i only s' e : finish_w c s i only = (s', e) -> RI s ->
+  RI s' /\ f_size s' = f_size s /\ (f_stopped s' = false -> f_stopped s = false).
+Proof.
+  unfold finish_w. destruct (f_stopped s) eqn:Hst.
+  { intros H; inversion H; subst. intros HR. split; [exact HR|split; [reflexivity|congruence]]. }
+  destruct (find_w (f_pool s) i) as [w|]; [|intros H; inversion H; subst; intros HR; (split; [exact HR|split; [reflexivity|auto]])].
+  destruct (w_cur w) as [j|]; [|intros H; inversion H; subst; intros HR; (split; [exact HR|split; [reflexivity|auto]])].
+  destruct (match only with Some id => jid j =? id | None => true end);
+    [|intros H; inversion H; subst; intros HR; (split; [exact HR|split; [reflexivity|auto]])].
+  destruct (with_after (worker_finished c s i)) as [s1 e1] eqn:E. intros H; inversion H; subst. intros HR.
+  destruct (worker_finished c s i) as [s0 e0] eqn:Ew.
+  destruct (worker_finished_RI _ _ _ _ _ Ew Hst HR) as (R1 & R2 & R3).
+  destruct (with_after_RI _ _ _ E R1) as (Q1 & Q2 & Q3). cbn [fst] in *.
+  split; [exact Q1|]. split; [congruence|intros _; reflexivity].
+Qed.
+
+Lemma finish_list_RI c l : forall s s' e, finish_list c s l = (s', e) -> RI s ->
+  RI s' /\ f_size s' = f_size s /\ (f_stopped s' = false -> f_stopped s = false).
+Proof.
+  induction l as [|[i id] r IH]; intros s s' e; cbn [finish_list].
+  { intros H; inversion H; subst. intros HR. split; [exact HR|split; [reflexivity|auto]]. }
+  destruct (finish_w c s i (Some id)) as [s1 e1] eqn:E1. destruct (finish_list c s1 r) as [s2 e2] eqn:E2.
+  intros H HR; inversion H; subst.
+  destruct (finish_w_RI _ _ _ _ _ _ E1 HR) as (A1 & A2 & A3).
+  destruct (IH _ _ _ E2 A1) as (B1 & B2 & B3). split; [exact B1|split; [congruence|auto]].
+Qed.
+
+Lemma step_RI c s o : RI s ->
+  let s' := fst (step c s o) in
+  RI s' /\ (f_stopped s' = false -> f_stopped s = false /\ f_size s' = size_after o (f_size s)).
+Proof.
+  intros HR. cbn zeta. destruct o as [j|i| |i|i|n| |dt| |]; cbn [step size_after].
+  - destruct (f_stopped s) eqn:Hst; [cbn [fst]; split; [exact HR|congruence]|].
+    destruct (with_after (dispatch c s j)) as [s' e] eqn:E. cbn [fst].
+    destruct (dispatch c s j) as [s0 e0] eqn:Ed. pose proof (dispatch_frame _ _ _ _ _ Ed) as Fr.
+    destruct (with_after_RI _ _ _ E (RI_frame _ _ HR Fr)) as (A1 & A2 & A3). cbn [fst] in *.
+    destruct Fr as (F1 & _). split; [exact A1|]. intros _. split; [reflexivity|congruence].
+  - destruct (finish_w c s i None) as [s' e] eqn:E. cbn [fst].
+    destruct (finish_w_RI _ _ _ _ _ _ E HR) as (A1 & A2 & A3). split; [exact A1|]. auto.
+  - destruct (finish_list c s (busy_snapshot s)) as [s' e] eqn:E. cbn [fst].
+    destruct (finish_list_RI _ _ _ _ _ E HR) as (A1 & A2 & A3). split; [exact A1|]. auto.
+  - destruct (f_stopped s) eqn:Hst; [cbn [fst]; split; [exact HR|congruence]|].
+    destruct (find_w (f_pool s) i) as [w|]; [|cbn [fst]; split; [exact HR|auto]].
+    destruct (w_cur w); [|cbn [fst]; split; [exact HR|auto]].
+    destruct (worker_died c s i) as [s' e] eqn:E. cbn [fst].
+    destruct (worker_died_RI _ _ _ _ _ E Hst HR) as (A1 & A2 & A3). split; [exact A1|auto].
+  - destruct (f_stopped s) eqn:Hst; [cbn [fst]; split; [exact HR|congruence]|].
+    destruct (worker_died c s i) as [s' e] eqn:E. cbn [fst].
+    destruct (worker_died_RI _ _ _ _ _ E Hst HR) as (A1 & A2 & A3). split; [exact A1|auto].
+  - destruct (f_stopped s) eqn:Hst; [cbn [fst]; split; [exact HR|congruence]|].
+    destruct (with_after (resize c s n)) as [s' e] eqn:E. cbn [fst].
+    destruct (resize c s n) as [s0 e0] eqn:Ed.
+    destruct (resize_RI _ _ _ _ _ Ed Hst HR) as (R1 & R2 & R3).
+    destruct (with_after_RI _ _ _ E R1) as (A1 & A2 & A3). cbn [fst] in *.
+    split; [exact A1|]. intros _. split; [reflexivity|congruence].
+  - destruct (f_stopped s) eqn:Hst; [cbn [fst]; split; [exact HR|congruence]|].
+    destruct (with_after (set_dstate s Draining, [EHook HDraining])) as [s' e] eqn:E. cbn [fst].
+    assert (HR' : RI (fst (set_dstate s Draining, [EHook HDraining]))) by exact HR.
+    destruct (with_after_RI _ _ _ E HR') as (A1 & A2 & A3). cbn [fst set_dstate f_size] in *.
+    split; [exact A1|]. intros _. split; [reflexivity|exact A2].
+  - cbn [fst]. split; [exact HR|auto].
+  - cbn [fst]. split; [exact HR|auto].
+  - destruct (f_stopped s) eqn:Hst; [cbn [fst]; split; [exact HR|congruence]|].
+    destruct (after_message s) as [s1 e1] eqn:E.
+    destruct (after_message_RI _ _ _ E HR) as (A1 & A2 & A3).
+    destruct (f_stopped s1) eqn:Hs1; cbn [fst]; (split; [exact A1|]); [congruence|auto].
+Qed.
+
+Lemma init_RI c t0 : RI (fst (init c t0)) /\ f_stopped (fst (init c t0)) = false /\ f_size (fst (init c t0)) = c_n0 c.
+Proof.
+  unfold init. cbn [fst].
+  match goal with |- context [grow c ?s0 0 ?k] =>
+    assert (H0 : shape_ok (f_pool s0) 0) by (split; [intros i Hi; lia|intros i w _ Hf; discriminate]);
+    destruct (grow_shape c k s0 0 H0) as (G1 & G2 & G3) end.
+  rewrite N.add_0_l, N2Nat.id in G1. cbn [set_size f_pool f_size f_stopped] in *.
+  split; [right; exact G1|]. split; [rewrite G3; reflexivity|reflexivity].
+Qed.
+
+Lemma state_after_RI c ops : forall s, RI s ->
+  let s' := state_after c s ops in
+  RI s' /\ (f_stopped s' = false -> f_stopped s = false /\ f_size s' = target_after (f_size s) ops).
+Proof.
+  induction ops as [|o r IH]; intros s HR; cbn [state_after target_after].
+  { split; [exact HR|auto]. }
+  destruct (step_RI c s o HR) as [H1 H2]. destruct (IH _ H1) as [H3 H4]. split; [exact H3|].
+  intros Hns. destruct (H4 Hns) as [H5 H6]. destruct (H2 H5) as [H7 H8]. split; [exact H7|].
+  rewrite H6, H8. destruct o; cbn [size_after]; reflexivity.
+Qed.
+
+(* For every configuration and EVERY label sequence (resizes interleaved with dispatches, busy
+   workers, completions, failures, kills, draining), if in the state reached the factory is alive
+   and no worker is busy, then the pool is exactly the slots 0..n-1 -- none of them draining --
+   where n is the last non-zero requested size (requests of 0 ignored, capped at 1_000_000), or
+   the initial size if there was none. *)
+Theorem resize_converges c ops :
+  let s := state_after c (fst (init c 0)) ops in
+  f_stopped s = false -> all_available (f_pool s) = true ->
+  f_size s = target_after (c_n0 c) ops
+  /\ (forall i, (exists w, find_w (f_pool s) i = Some w) <-> i < f_size s)
+  /\ (forall i w, find_w (f_pool s) i = Some w -> w_drain w = false).
+Proof.
+  intros s Hns Hidle. destruct (init_RI c 0) as (I1 & I2 & I3).
+  destruct (state_after_RI c ops _ I1) as [HR Hsz]. fold s in HR, Hsz.
+  destruct (Hsz Hns) as [_ Hsize]. rewrite I3 in Hsize. split; [exact Hsize|].
+  destruct HR as [HR|[A B]]; [congruence|].
+  assert (Hno : forall i w, f_size s <= i -> find_w (f_pool s) i = Some w -> False).
+  { intros i w Hi Hf. destruct (B i w Hi Hf) as [_ Hw]. apply find_w_In in Hf. destruct Hf as [Hin _].
+    unfold all_available in Hidle. rewrite forallb_forall in Hidle. specialize (Hidle w Hin).
+    unfold w_working in Hw. rewrite Hidle in Hw. discriminate. }
+  split.
+  - intros i. split.
+    + intros [w Hf]. destruct (N.lt_ge_cases i (f_size s)) as [Hlt|Hge]; [exact Hlt|]. exfalso. eapply Hno; eassumption.
+    + intros Hi. destruct (A i Hi) as (w & Hf & _). eauto.
+  - intros i w Hf. destruct (N.lt_ge_cases i (f_size s)) as [Hlt|Hge].
+    + destruct (A i Hlt) as (w' & Hf' & Hd). congruence.
+    + exfalso. eapply Hno; eassumption.
 Qed.
